@@ -121,7 +121,9 @@ def canonObj : Obj → Option (Bool × List Obj)
     | .zero => none
     | .keep a b => some (false, [.delta a b])
   | .sym s => some (false, [.sym s])
-  | .poly ps e => some (false, [.poly (canonPoly ps) e])
+  | .poly ps e =>
+    -- (p)^e as |e| copies of p^(±1): products of powers of the same bracket get one normal form
+    some (false, List.replicate e.natAbs (.poly (canonPoly ps) (if e < 0 then -1 else 1)))
 
 def canonObjs : List Obj → Option (Bool × List Obj)
   | [] => some (false, [])
